@@ -179,7 +179,22 @@ impl StorageEngine {
     fn get_shard(&self, db: DatabaseIndex, key: &[u8]) -> Result<&Arc<RwLock<DatabaseShard>>> {
         let database = self.databases.get(db).ok_or(StorageError::InvalidDatabase)?;
         let shard_idx = self.get_shard_index(key);
-        Ok(&database.shards[shard_idx])
+        let shard = &database.shards[shard_idx];
+        // Lazy expiry for EVERY single-key operation: a key whose deadline has passed is removed
+        // before the operation looks at it, whether or not the sweeper has run yet
+        let expired = shard.read().unwrap().data.get(key).map_or(false, |v| v.is_expired());
+        if expired {
+            let mut shard_guard = shard.write().unwrap();
+            if shard_guard.data.get(key).map_or(false, |v| v.is_expired()) {
+                if let Some(stored_value) = shard_guard.data.remove(key) {
+                    shard_guard.expiring_keys.remove(key);
+                    shard_guard.mark_modified(key);
+                    let memory_size = self.calculate_value_size(key, &stored_value.value);
+                    self.memory_manager.remove_memory(memory_size);
+                }
+            }
+        }
+        Ok(shard)
     }
     
     /// Set a string value
@@ -472,7 +487,10 @@ impl StorageEngine {
         // Collect keys from all shards
         for shard in &database.shards {
             let shard_guard = shard.read().unwrap();
-            for key in shard_guard.data.keys() {
+            for (key, stored_value) in shard_guard.data.iter() {
+                if stored_value.is_expired() {
+                    continue;
+                }
                 all_keys.push(key.clone());
             }
         }
@@ -2147,7 +2165,10 @@ impl StorageEngine {
         // Collect keys from all shards
         for shard in &database.shards {
             let shard_guard = shard.read().unwrap();
-            for key in shard_guard.data.keys() {
+            for (key, stored_value) in shard_guard.data.iter() {
+                if stored_value.is_expired() {
+                    continue;
+                }
                 if pattern_matches(pattern, key) {
                     matching_keys.push(key.clone());
                 }
